@@ -46,3 +46,77 @@ prop("C16", "exploration",
           "thorough": {"checks": 1, "timeout": 60}},
      ],
      ["region names are well-formed: table over [A-Za-z0-9_.-] with optional ns:, id suffix without commas"])
+
+
+prop("C08", "exploration",
+     "stateful property-based testing (rapid) of the location cache against a brute-force interval model + "
+     "exhaustive small-scope enumeration of put histories",
+     "Generated put/del/get histories on the real cache type; after every step contents, (overlaps, replaced), dead "
+     "marks and lookups are compared with a brute-force model and pairwise non-overlap is asserted directly. All "
+     "histories of <=3 (thorough: 4) puts over a 30-region scope are enumerated.",
+     "Trusted: the brute-force model; equal-id overlaps are only held to the invariant (winner unspecified); "
+     "removals are issued only for objects that were accepted into the cache, as the client's callers do.",
+     [
+         {"test": "TestC08_StateMachine", "quick": {"checks": 20000, "timeout": 200},
+          "thorough": {"checks": 300000, "shards": 16, "timeout": 1200}},
+         {"test": "TestC08_Exhaustive", "quick": {"checks": 1, "timeout": 120},
+          "thorough": {"checks": 1, "timeout": 900}},
+     ],
+     ["removals only name regions that were accepted into the cache at some point"])
+
+prop("C10", "exploration",
+     "property-based testing (rapid) + native fuzzing: round-trip through the client's decoder and an independent "
+     "KeyValue decoder, and agreement of the protobuf and cellblock encodings",
+     "Generated mutation specifications over the whole documented domain; three oracles (independent decoder, own "
+     "decoder with trailing data, protobuf form vs cellblock form). Sampling, not exhaustive.",
+     "Trusted: the independent decoder in harness/wire, protobuf-go, the DeleteType<->KeyValue type table of HBase.",
+     [
+         {"test": "TestC10_Mutations", "quick": {"checks": 60000, "timeout": 200},
+          "thorough": {"checks": 600000, "shards": 16, "timeout": 1500}},
+         {"fuzz": "FuzzC10", "thorough": {"fuzztime": "90s", "workers": 8, "timeout": 400}},
+     ],
+     ["rows <= 65535 bytes and families <= 255 bytes (the format cannot carry more)"])
+
+prop("C15", "exploration",
+     "property-based testing (rapid) + native fuzzing: round trip, differential against an independent Hadoop "
+     "block-stream reader/writer, differential on damaged streams",
+     "Generated payloads around the chunk size as 1..8 buffers, conforming server streams with arbitrary blocks and "
+     "chunking, and truncations/substitutions/insertions/deletions; four oracles as in DESIGN.md C15.",
+     "Trusted: golang/snappy for chunk payloads on both sides (framing is independent); streams declaring a block "
+     "> 64 MiB are skipped (resource exhaustion is outside the statement).",
+     [
+         {"test": "TestC15_Compression", "quick": {"checks": 8000, "timeout": 200},
+          "thorough": {"checks": 80000, "shards": 16, "timeout": 1500}},
+         {"fuzz": "FuzzC15Decompress", "thorough": {"fuzztime": "90s", "workers": 8, "timeout": 400}},
+     ],
+     ["raw snappy has no checksum: a damaged stream that is still a conforming stream may decode to what it denotes"])
+
+prop("C06", "exploration",
+     "property-based testing (rapid): the real scanner against a model regionserver/RPCClient with a generated "
+     "chunking tape; oracle = sorted range-filtered model table",
+     "Generated tables, layouts, ranges, directions and server chunking behaviours; the scanner's output must equal "
+     "the model's rows in range, in order, whole, once, then io.EOF. A request budget turns non-termination into a "
+     "verdict.",
+     "Trusted: the model server (my reading of the scan protocol: region routing by start row, "
+     "more_results_in_region / more_results semantics, partial flags). Filters and server-side limits are outside "
+     "the domain; start==stop ranges are not generated (servers read them as point gets).",
+     [
+         {"test": "TestC06_Scanner", "quick": {"checks": 150000, "timeout": 300},
+          "thorough": {"checks": 2000000, "shards": 16, "timeout": 2400}},
+     ],
+     ["row keys and region boundaries contain no run of eight 0xff (documented approximation)",
+      "reversed scans have an explicit start row"])
+
+prop("C14", "fault_enumeration",
+     "property-based testing (rapid) with generated end points (close / error on request j / cancel / early "
+     "no-more-results / renewal) against the model regionserver's scanner table",
+     "Every generated scan is ended at a drawn point by Close, an injected RPC error on request j, cancellation, or "
+     "by the server; oracle on the (result, error) sequence and on the set of region scanners still open at the "
+     "model server after asynchronous closes drained (virtual time).",
+     "Trusted: the model server; cancellation points are between Next calls at this level (held requests are covered "
+     "by the wire-level check).",
+     [
+         {"test": "TestC14_Scanner", "quick": {"checks": 100000, "timeout": 300},
+          "thorough": {"checks": 1500000, "shards": 16, "timeout": 2400}},
+     ],
+     ["injected RPC errors are non-retryable and hit only non-close requests (server state stays knowable)"])
